@@ -42,6 +42,8 @@ type Profile struct {
 	Saturated                      bool     // idle GPUs are filled with running filler workloads (see Saturate)
 	Contention                     bool     // GPUs are the bottleneck: GPU nodes, GPU workloads, meaningful GPU quotas
 	PPersistent                    int      // a world's cycles are served by ONE scheduler process (process.go) instead of a restart per cycle
+	DeeperTrees                    bool     // queue trees of four to five levels (sibling leaves under one level-3 parent)
+	PHeteroConstraints             int      // chance (x/10) that the pods of a workload differ in node selector / required node affinity
 	PMutations                     int      // per gap between two cycles: users / administrators change API objects
 	MutationKinds                  []string // kinds of mutations drawn (nil = all)
 	AntiFamily                     bool     // anti-affinity families: 'holders' (required pod anti-affinity against a role, small requests) and 'targets' (pods that only carry the role label) compete in full clusters
@@ -514,7 +516,17 @@ func genQueues(t *rapid.T, pf Profile, w *World) {
 			midName := mid.Name
 			if w.Config.FullHierarchy && (pf.Deep || between(t, 0, 3, "deeper") == 0) && total < pf.MaxQueues+nTop {
 				for j := 0; j < between(t, 1, 2, "grandKids"); j++ {
-					mk(midName)
+					gk := mk(midName).Name
+					// four (rarely five) levels, sibling leaves under one level-3 parent
+					if pf.DeeperTrees && chance(t, 4, "level4") && total < pf.MaxQueues+nTop+4 {
+						for l := 0; l < between(t, 2, 3, "level4Kids"); l++ {
+							l4 := mk(gk).Name
+							if l == 0 && chance(t, 2, "level5") {
+								mk(l4)
+								mk(l4)
+							}
+						}
+					}
 				}
 			}
 		}
@@ -984,8 +996,25 @@ func genGroups(t *rapid.T, pf Profile, w *World) {
 			}
 		}
 		perSet := map[string]int{}
+		// pods of one workload need not come from one template: launcher / worker roles with their own node selector
+		// or required node affinity
+		hetero := pf.PHeteroConstraints > 0 && replicas > 1 && chance(t, pf.PHeteroConstraints, "heteroConstraints")
 		for pi := 0; pi < replicas; pi++ {
 			p := tmpl
+			if hetero {
+				p.NodeSelector, p.Affinity = nil, nil
+				if pi > 0 || chance(t, 3, "firstPodConstrainedToo") {
+					switch between(t, 0, 3, "heteroKind") {
+					case 0:
+						p.NodeSelector = map[string]string{ZoneLabel: zones[between(t, 0, len(zones)-1, "hSelZone")]}
+					case 1:
+						p.NodeSelector = map[string]string{DiskLabel: pickS(t, "hSelDisk", "ssd", "hdd", "nvme")}
+					case 2:
+						p.Affinity = []AffinityTerm{{Key: RackLabel, Op: pickS(t, "hAffOp", "In", "NotIn"), Values: []string{racks[between(t, 0, len(racks)-1, "hAffRack")]}}}
+					case 3: // this pod stays unconstrained
+					}
+				}
+			}
 			p.Name = fmt.Sprintf("%s-p%d", g.Name, pi)
 			p.CreatedMin = g.CreatedMin
 			if len(sets) > 0 {
